@@ -33,6 +33,14 @@ def case_strategy(draw, tier):
     eids = D.distinct_eids(draw, n)
     names = draw(st.lists(D.file_name(), min_size=n, max_size=n, unique=True))
     pels = [draw(D.dir_pel(e, selectable=draw(st.sampled_from([True, True, True, None])))) for e in eids]
+    for p in pels:
+        if draw(st.integers(0, 7)) == 0:
+            # a big section in front of (or instead of) the primary SRC: the summary still has to walk past it
+            big = {'k': 'UD', 'ver': 1, 'sub': 2, 'comp': 0x1234,
+                   'data': bytes(draw(st.sampled_from([4000, 5000, 9000, 20000, 65000])))}
+            p['secs'].insert(draw(st.integers(0, 1)) if p['secs'] else 0, big)
+            if draw(st.booleans()):
+                p['secs'] = [s for s in p['secs'] if not (s['k'] == 'SRC' and s['id'] == 'PS')]
     return {'files': [[nm, p] for nm, p in zip(names, pels)], 'sel': draw(D.selection()),
             'rev': draw(st.booleans()), 'ext': draw(st.sampled_from([None, None, None, None, '.pel', '.txt', '.PEL', '.none'])),
             'hex': draw(st.integers(0, 3)) == 0, 'real': draw(st.integers(0, 9)) == 0}
